@@ -43,6 +43,15 @@ def run(ctx):
         else:             # far apart
             va = shapes.rand_simple_vs(rng, 0, 0, R=4)
             vb = shapes.rand_simple_vs(rng, 40, 3, R=4)
+        if it % 10 == 9:
+            # large integer coordinates: the exact crossing parameters have denominators beyond 10^9
+            for _ in range(50):
+                va = shapes.ccw(gen.star_polygon(rng, rng.randint(3, 5), 40000, 0, 0, den=1))
+                vb = shapes.ccw(gen.star_polygon(rng, rng.randint(3, 5), 40000, rng.randint(-20000, 20000), rng.randint(-20000, 20000), den=1))
+                if drv.ask("genpos " + core.elist([va, vb], core.epoly)) == "T":
+                    break
+            mode = 0
+            ctx.count("large-integer-pair")
         if len(set(va)) != len(va) or len(set(vb)) != len(vb):
             continue
         A, B = JordanCurve.from_vertices(va), JordanCurve.from_vertices(vb)
@@ -69,6 +78,16 @@ def run(ctx):
         ctx.check(tuple(amp) == tuple(A.intersection(B, equal_beziers=False, end_points=False)), "A & B is not intersection(False, False)", desc)
         swapped = B.intersection(A)
         ctx.check(sorted((b, a, v, u) for a, b, u, v in A.intersection(B) if u is not None) == sorted(t for t in swapped if t[2] is not None), "operand swap does not swap (a,u) and (b,v)", desc)
+        if it % 3 == 0:
+            # the same curve objects after an in-place move / scale of one of them
+            dx, dy = F(rng.randint(-3, 3)), F(rng.randint(-3, 3), 2)
+            kk = F(rng.choice([1, 2, 3]), rng.choice([1, 2]))
+            B.move(dx, dy); B.scale(kk, kk)
+            vb2 = [((x + dx) * kk, (y + dy) * kk) for x, y in vb]
+            got2 = sorted(B.intersection(A), key=lambda x: (x[0], x[1], x[2] is not None, x[2] or 0, x[3] or 0))
+            exp2 = model_tuples(drv, vb2, va, True, True)
+            ctx.case("intersection-after-transform", (tuple(va), tuple(vb), dx, dy, kk), nontrivial=len(exp2) > 0)
+            ctx.check([tuple(x) for x in got2] == exp2, "intersection after an in-place move/scale differs from the model", {**desc, "move": (dx, dy), "scale": kk}, exp2, got2)
         if trans:
             k = len(A.intersection(B))
             ctx.check(k % 2 == 0, "odd number of crossings of two closed curves in general position", desc, "even", k)
@@ -80,6 +99,14 @@ def run(ctx):
               ("circle-triangle", Primitive.circle(radius=2, center=(F(1, 3), F(1, 7))), Primitive.polygon([(-4, -1), (4, F(-1, 2)), (F(1, 5), 5)]), 2),
               ("circle-smallsquare", Primitive.circle(radius=3), Primitive.square(side=1, center=(3, F(1, 9))), 2),
               ("circle-circle-close", Primitive.circle(radius=1.0), Primitive.circle(radius=1.0, center=(0.3, 0.0)), 2)]
+    # a long flat parabola dipping just below a rectangle edge: two crossings that are close in parameter space (du = 5e-4)
+    from shapepy import JordanCurve, SimpleShape
+    for w, dip in ((4000.0, 1e-3), (400.0, 1e-2)):
+        # y(t) = H (1 - 4 (1 + dip/H) (t - t^2)) - minimum -dip at t = 1/2, zeros at t = 1/2 +- sqrt(dip/H)/2 (du = sqrt(dip/H))
+        H = w
+        para = JordanCurve.from_ctrlpoints([[(-w / 2, H), (0.0, -H - 2 * dip), (w / 2, H)], [(w / 2, H), (w / 2, 2 * H)], [(w / 2, 2 * H), (-w / 2, 2 * H)], [(-w / 2, 2 * H), (-w / 2, H)]])
+        rect = JordanCurve.from_vertices([(-w, -30.0), (w, -30.0), (w, 0.0), (-w, 0.0)])
+        corpus.append((f"flat-parabola-w{w}-dip{dip}", SimpleShape(para), SimpleShape(rect), 2))
     for name, SA, SB, expected in corpus:
         A, B = SA.jordans[0], SB.jordans[0]
         full = A.intersection(B)
@@ -104,5 +131,6 @@ def run(ctx):
                 if prev is not None and cur != prev:
                     trans += 1
                 prev = cur
-        ctx.check(trans == expected, "corpus expectation is wrong (harness self-check)", {"pair": name}, expected, trans)
+        if not name.startswith("flat-parabola"):      # (the dense sampling is too coarse for the 4-unit gap of the flat parabola: analytic count)
+            ctx.check(trans == expected, "corpus expectation is wrong (harness self-check)", {"pair": name}, expected, trans)
         ctx.check(len(pts) == expected, "curved pair: number of distinct crossings", {"pair": name}, expected, len(pts), sig={"family": "curved", "pair": name})
